@@ -94,6 +94,37 @@ pub fn handle(op: &str, req: &Value) -> Option<Value> {
             let aborts: Vec<u64> = c.take_pending_aborts().into_iter().map(|a| a.0).collect();
             json!({"before": before, "after": dump(&c), "result": result, "aborts_queued": aborts})
         },
+        "coordinator_vote_log" => {
+            // C13 X2: two participants, real TxWal; first vote Yes, second vote of the given kind; `conflict` makes the two
+            // Yes deltas parallel on a shared key.  Then the log alone is recovered and compared with the in-memory phase.
+            use tensor_chain::tx_wal::{TxRecoveryState, TxWal};
+            let dir = std::env::var("VERIF_BUILD").unwrap_or_else(|_| "/verif/.build".into());
+            let dir = std::path::PathBuf::from(dir).join("replay-tmp").join(format!("v{}-{}", std::process::id(), now_ms()));
+            let _ = std::fs::create_dir_all(&dir);
+            let path = dir.join("tx.wal");
+            let wal = match TxWal::open(&path) { Ok(w) => w, Err(e) => return Some(json!({"error": e.to_string()})) };
+            let c = DistributedTxCoordinator::new(ConsensusManager::default_config(), DistributedTxConfig::default()).with_wal(wal);
+            let tx = match c.begin(&"c".to_string(), &[0, 1]) { Ok(t) => t, Err(e) => return Some(json!({"error": e.to_string()})) };
+            let keys = |k: &str| { let mut h = HashSet::new(); h.insert(k.to_string()); h };
+            let conflict = req["conflict"].as_bool().unwrap_or(false);
+            let d0 = DeltaVector::new(&[1.0, 0.0], keys("shared"), tx.tx_id);
+            let d1 = if conflict { DeltaVector::new(&[1.0, 0.0], keys("shared"), tx.tx_id) } else { DeltaVector::new(&[0.0, 1.0], keys("other"), tx.tx_id) };
+            let r0 = c.record_vote(tx.tx_id, 0, PrepareVote::Yes { lock_handle: 1, delta: d0 });
+            let v1 = match req["vote_kind"].as_u64().unwrap_or(0) {
+                0 => PrepareVote::Yes { lock_handle: 2, delta: d1 },
+                1 => PrepareVote::No { reason: "no".into() },
+                _ => PrepareVote::Conflict { similarity: 0.9, conflicting_tx: 5 },
+            };
+            let r1 = c.record_vote(tx.tx_id, 1, v1);
+            let mem = dump(&c);
+            let rec = TxWal::open(&path).ok().and_then(|w| TxRecoveryState::from_wal(&w).ok());
+            let (np, nc) = rec.map_or((99, 99), |r| (r.prepared_txs.len(), r.committing_txs.len()));
+            let _ = std::fs::remove_dir_all(&dir);
+            let phase_now = mem.as_array().and_then(|a| a.first()).and_then(|t| t["phase"].as_u64());
+            let prepared = phase_now == Some(1);
+            json!({"first": format!("{r0:?}").chars().take(60).collect::<String>(), "second": format!("{r1:?}").chars().take(60).collect::<String>(), "memory": mem,
+                   "recovered_prepared": np, "recovered_committing": nc, "violates": if prepared { np != 1 } else { np != 0 || nc != 0 }})
+        },
         _ => return None,
     })
 }
